@@ -370,60 +370,151 @@ func rulesC11(c *Ctx) {
 			return ""
 		})
 		c.Pin("refs/timer accesses", k, 10)
-		ep := c.Fn(pM, "sessionInfo", "endPOST")
-		eg := ep.Graph()
-		nReset := 0
-		for _, call := range ep.AllCalls(ep.Body, false) {
-			if fn := ep.Callee(call); fn != nil && fn.Name() == "Reset" {
-				nReset++
-				guards := eg.GuardsAt(eg.VertexOf(call))
-				ok := hasAtom(guards, func(a Atom) bool {
-					x, y, op, isCmp := binaryCmp(a.E)
-					z, isZ := ep.ConstInt(y)
-					return isCmp && op == token.EQL && a.Val && ep.IsField(x, refs) && isZ && z == 0
-				})
-				// the decrement precedes the test
-				dec := false
-				for _, w := range ep.FieldWrites(ep.Body, refs, false) {
-					if id, isID := w.(*ast.IncDecStmt); isID && id.Tok == token.DEC && eg.Dominates(eg.VertexOf(w), eg.VertexOf(call)) {
-						dec = true
-					}
+		// startPOST and endPOST are judged by what they do for a given number of POSTs already in flight, not by how the
+		// test is spelled: the branch conditions are evaluated with refs = that number (adjusted by the ++/-- that precede
+		// the test), timeout > 0 and an existing timer; everything else is unknown and follows both edges
+		timeoutF := c.Field(pM, "sessionInfo", "timeout")
+		countLeaf := func(f *Func, g *Graph, before int64) func(ast.Expr) tri {
+			cmp := func(v int64, op token.Token, z int64) tri {
+				var r bool
+				switch op {
+				case token.EQL:
+					r = v == z
+				case token.NEQ:
+					r = v != z
+				case token.LSS:
+					r = v < z
+				case token.LEQ:
+					r = v <= z
+				case token.GTR:
+					r = v > z
+				case token.GEQ:
+					r = v >= z
+				default:
+					return triUnknown
 				}
-				c.Check(ok && dec, "endPOST:rearm-only-when-last", ep, call, "the idle timer is re-armed only when refs has dropped to 0 (guards: %s); re-arming while another POST is running lets the timeout close the session mid-request", atomsString(guards))
+				if r {
+					return triTrue
+				}
+				return triFalse
+			}
+			return func(e ast.Expr) tri {
+				if x, trueWhenNil, isNil := NilTest(e); isNil && f.IsField(x, timer) {
+					if trueWhenNil {
+						return triFalse
+					}
+					return triTrue
+				}
+				x, y, op, ok := binaryCmp(e)
+				if !ok {
+					return triUnknown
+				}
+				z, isZ := f.ConstInt(y)
+				if !isZ {
+					return triUnknown
+				}
+				if f.IsField(x, timeoutF) {
+					return cmp(1<<40, op, z)
+				}
+				if f.IsField(x, refs) {
+					v := before
+					xv := g.VertexOf(x)
+					for _, w := range f.FieldWrites(f.Body, refs, false) {
+						id, isID := w.(*ast.IncDecStmt)
+						if !isID {
+							return triUnknown
+						}
+						wv := g.VertexOf(w)
+						if wv == xv || !g.Dominates(wv, xv) {
+							if g.ReachableFrom(wv)[xv] {
+								return triUnknown // changed on some paths only
+							}
+							continue
+						}
+						if id.Tok == token.INC {
+							v++
+						} else {
+							v--
+						}
+					}
+					return cmp(v, op, z)
+				}
+				return triUnknown
 			}
 		}
-		c.Pin("endPOST timer.Reset", nReset, 1)
-		st := c.Fn(pM, "sessionInfo", "startPOST")
-		sg := st.Graph()
-		// the first POST pauses the timer: on the refs == 0 edge every path calls timer.Stop()
-		okPause := false
-		for _, t := range sg.edgesWhere(func(a Atom) bool {
-			x, y, op, isCmp := binaryCmp(a.E)
-			z, isZ := st.ConstInt(y)
-			return isCmp && op == token.EQL && a.Val && st.IsField(x, refs) && isZ && z == 0
-		}) {
-			okPause = sg.allPathsPass(t, func(v int) bool {
-				for _, call := range st.AllCalls(sg.Node(v), false) {
-					if fn := st.Callee(call); fn != nil && fn.Name() == "Stop" && fn.Pkg() != nil && fn.Pkg().Path() == "time" {
+		timeCall := func(f *Func, g *Graph, name string) func(int) bool {
+			return func(v int) bool {
+				for _, call := range f.AllCalls(g.Node(v), false) {
+					if fn := f.Callee(call); fn != nil && fn.Name() == name && fn.Pkg() != nil && fn.Pkg().Path() == "time" {
 						return true
 					}
 				}
 				return false
-			})
-		}
-		c.Check(okPause, "startPOST:first-POST-stops-the-timer", st, nil, "when no other POST is running (refs == 0) startPOST always stops the idle timer")
-		for _, call := range st.AllCalls(st.Body, false) {
-			if fn := st.Callee(call); fn != nil && fn.Name() == "Stop" {
-				inc := false
-				for _, w := range st.FieldWrites(st.Body, refs, false) {
-					if id, isID := w.(*ast.IncDecStmt); isID && id.Tok == token.INC {
-						okp, _ := sg.MustPass(sg.VertexOf(call), sg.Exits, func(v int) bool { return v == sg.VertexOf(w) })
-						inc = okp
-					}
-				}
-				c.Check(inc, "startPOST:stop-then-count", st, call, "stopping the timer is always followed by counting the POST")
 			}
 		}
+		incDec := func(f *Func, g *Graph, tok token.Token) func(int) bool {
+			return func(v int) bool {
+				for _, w := range f.FieldWrites(g.Node(v), refs, false) {
+					if id, isID := w.(*ast.IncDecStmt); isID && id.Tok == tok {
+						return true
+					}
+				}
+				return false
+			}
+		}
+		allExitsBehind := func(g *Graph, leaf func(ast.Expr) tri, via func(int) bool) bool {
+			avoid := g.ReachUnder(leaf, via)
+			all := g.ReachUnder(leaf, nil)
+			some := false
+			for _, x := range g.Exits {
+				if all[x] {
+					some = true
+				}
+				if avoid[x] && !via(x) {
+					return false
+				}
+			}
+			return some
+		}
+		ep := c.Fn(pM, "sessionInfo", "endPOST")
+		eg := ep.Graph()
+		nReset := 0
+		for v := range eg.node {
+			if eg.node[v] != nil && timeCall(ep, eg, "Reset")(v) {
+				nReset++
+			}
+		}
+		c.Pin("endPOST timer.Reset", nReset, 1)
+		okLast := allExitsBehind(eg, countLeaf(ep, eg, 1), timeCall(ep, eg, "Reset"))
+		okOthers := true
+		for _, before := range []int64{2, 3, 7} {
+			reach := eg.ReachUnder(countLeaf(ep, eg, before), nil)
+			for v := range eg.node {
+				if eg.node[v] != nil && reach[v] && timeCall(ep, eg, "Reset")(v) {
+					okOthers = false
+				}
+			}
+		}
+		c.Check(okOthers, "endPOST:rearm-only-when-last", ep, nil, "with two or more POSTs in flight before the call, endPOST does not reach timer.Reset (branch conditions evaluated for refs = 2, 3, 7 before the call); re-arming while another POST is running lets the timeout close the session mid-request")
+		c.Check(okLast, "endPOST:last-POST-rearms", ep, nil, "when the last POST ends (refs = 1 before the call) every path of endPOST re-arms the idle timer: otherwise an idle session is never reaped")
+		okDec := true
+		for _, before := range []int64{1, 2, 3} {
+			if !allExitsBehind(eg, countLeaf(ep, eg, before), incDec(ep, eg, token.DEC)) {
+				okDec = false
+			}
+		}
+		c.Check(okDec, "endPOST:always-uncounts", ep, nil, "endPOST decrements refs on every path (timeout set, timer alive)")
+		st := c.Fn(pM, "sessionInfo", "startPOST")
+		sg := st.Graph()
+		okPause := allExitsBehind(sg, countLeaf(st, sg, 0), timeCall(st, sg, "Stop"))
+		c.Check(okPause, "startPOST:first-POST-stops-the-timer", st, nil, "when no other POST is running (refs = 0 before the call) every path of startPOST stops the idle timer")
+		okInc := true
+		for _, before := range []int64{0, 1, 2} {
+			if !allExitsBehind(sg, countLeaf(st, sg, before), incDec(st, sg, token.INC)) {
+				okInc = false
+			}
+		}
+		c.Check(okInc, "startPOST:always-counts", st, nil, "startPOST counts the POST on every path (timeout set, timer alive), whether or not it had to stop the timer")
 		// stopTimer (called when the session goes away) stops the timer and forgets it, unconditionally once it exists: a timer
 		// that stays in the field is re-armed by the endPOST of a request that was still in flight when the session closed
 		stp := c.Fn(pM, "sessionInfo", "stopTimer")
